@@ -1161,3 +1161,17 @@ func StdCall(in *Interp, fn *ssa.Function, args []Val) (Val, bool) {
 	}
 	return nil, false
 }
+
+// CallClosure calls a closure value; abnormal termination is returned.
+func (in *Interp) CallClosure(c *Closure, args []Val) (res Val, end *PathEnd) {
+	defer func() {
+		if r := recover(); r != nil {
+			if pe, ok := r.(*PathEnd); ok {
+				end = pe
+				return
+			}
+			panic(r)
+		}
+	}()
+	return in.CallFn(c.Fn, args, c.Bind, nil), nil
+}
